@@ -343,28 +343,14 @@ impl<F: Fam> Ctx<F> {
         let loc = if present.is_some() { self.in_old(s, kk) } else { None };
         self.note_loc(present.is_some(), loc);
         let q = F::K::mk(kk);
-        let (seen, obs): (Result<Seen, bool>, Obs) = self.observe(s, true, &[], move |m| match which {
-            0 => Ok(m.get(&q).map(|v| (kk, 0, v.v(), v.id()))),
-            1 => Ok(m.get_mut(&q).map(|v| {
-                let r = (kk, 0, v.v(), v.id());
-                if let Some(w) = w {
-                    v.set(w);
-                }
-                r
-            })),
-            2 => Ok(m.get_key_value(&q).map(|(k, v)| {
-                k.check("get_key_value");
-                (k.k(), k.id(), v.v(), v.id())
-            })),
-            3 => Ok(m.get_key_value_mut(&q).map(|(k, v)| {
-                k.check("get_key_value_mut");
-                let r = (k.k(), k.id(), v.v(), v.id());
-                if let Some(w) = w {
-                    v.set(w);
-                }
-                r
-            })),
-            _ => Err(m.contains_key(&q)),
+        // every fourth lookup goes through the borrowed form of the key (`K: Borrow<QV>`)
+        let borrowed = (kk as usize ^ self.op_index) % 4 == 0;
+        let (seen, obs): (Result<Seen, bool>, Obs) = self.observe(s, true, &[], move |m| {
+            if borrowed {
+                F::lookup_qv(m, QV::of(&kk), which, w)
+            } else {
+                lookup_with::<F, F::K>(m, &q, which, w, kk)
+            }
         })?;
         match seen {
             Err(b) => {
@@ -400,7 +386,11 @@ impl<F: Fam> Ctx<F> {
         let kk = self.resolve(s, k);
         let present = self.slots[s].model.get(&kk).copied();
         let q = F::K::mk(kk);
+        let borrowed = (kk as usize ^ self.op_index) % 4 == 0;
         let (r, obs) = self.observe_raw(s, move |m| {
+            if borrowed {
+                return F::index_qv(m, QV::of(&kk));
+            }
             let v = &m[&q];
             (v.v(), v.id())
         });
@@ -429,8 +419,11 @@ impl<F: Fam> Ctx<F> {
         let loc = if present.is_some() { self.in_old(s, kk) } else { None };
         self.note_loc(present.is_some(), loc);
         let q = F::K::mk(kk);
+        let borrowed = (kk as usize ^ self.op_index) % 4 == 0;
         let (seen, obs): (Seen, Obs) = self.observe(s, true, &[], move |m| {
-            if entry {
+            if borrowed {
+                F::remove_qv(m, QV::of(&kk), entry)
+            } else if entry {
                 m.remove_entry(&q).map(|(k, v)| {
                     k.check("remove_entry");
                     v.check("remove_entry");
@@ -583,17 +576,70 @@ impl<F: Fam> Ctx<F> {
     fn follow_inserts(&mut self, s: usize, n: usize, what: &'static str) -> Result<(), Fail> {
         let lim = if self.big { 20_000 } else { 4096 };
         let lim = lim.min(self.len_cap(s).saturating_sub(self.slots[s].model.len()));
-        for i in 0..n.min(lim) {
-            let kk = self.fresh_key();
+        let total = n.min(lim);
+        let mut i = 0usize;
+        while i < total {
             // "the next n new keys are inserted without reallocation" holds for every inserting
             // route, not only `insert`
-            match (i + n) % 4 {
-                1 => self.insert_fresh_via(s, kk, i as u32, 1, (C10, what))?,
-                2 => self.insert_fresh_via(s, kk, i as u32, 2, (C10, what))?,
+            match (i + n) % 5 {
+                1 => {
+                    let kk = self.fresh_key();
+                    self.insert_fresh_via(s, kk, i as u32, 1, (C10, what))?;
+                    i += 1;
+                }
+                2 => {
+                    let kk = self.fresh_key();
+                    self.insert_fresh_via(s, kk, i as u32, 2, (C10, what))?;
+                    i += 1;
+                }
+                3 => {
+                    // ... nor for `extend` from a source whose size hint is (0, Some(large)): a few
+                    // new keys out of many candidates that a filter rejects
+                    let b = (total - i).min(3);
+                    self.extend_fresh_filtered(s, b, (C10, what))?;
+                    i += b;
+                }
                 _ => {
+                    let kk = self.fresh_key();
                     self.do_insert(s, kk, i as u32, Some((C10, what)))?;
+                    i += 1;
                 }
             }
+        }
+        Ok(())
+    }
+
+    /// `extend` with `b` new keys that pass a filter among many candidates that do not (the
+    /// source's size hint is (0, Some(b + pad))); an allocation is a failure of `no_alloc`
+    fn extend_fresh_filtered(&mut self, s: usize, b: usize, no_alloc: (Prop, &'static str)) -> Result<(), Fail> {
+        let st = self.st(s);
+        let pad = (2 * st.cap + 8).min(600);
+        let mut objs: Vec<(F::K, F::V)> = Vec::with_capacity(b + pad);
+        let mut added: Vec<(u32, ME)> = Vec::with_capacity(b);
+        for j in 0..b + pad {
+            let kk = self.fresh_key();
+            let (k, v) = (F::K::mk(kk), F::V::mk(j as u32));
+            if j % (pad / b.max(1) + 1) == 0 && added.len() < b {
+                added.push((kk, ME { kid: k.id(), v: j as u32, vid: v.id() }));
+            }
+            objs.push((k, v));
+        }
+        let keep: std::collections::BTreeSet<u32> = added.iter().map(|x| x.0).collect();
+        let n_add = added.len();
+        let objs_ref = &mut objs;
+        let keep_ref = &keep;
+        let (_, obs) = self.observe(s, true, &[], move |m| {
+            m.extend(objs_ref.drain(..).filter(|(k, _)| keep_ref.contains(&k.k())));
+        })?;
+        drop(objs);
+        for (kk, me) in added {
+            self.slots[s].model.insert(kk, me);
+        }
+        let mut f = Facts::of(Kind::Extend(n_add));
+        f.listed = true;
+        self.judge(s, &obs, &f)?;
+        if obs.alloc.allocs != 0 {
+            return Err(self.mkfail(vec![no_alloc.0], no_alloc.1, format!("extend of {} new keys (filtered out of {} candidates) allocated {} time(s) although room had been promised (len {} capacity {})", n_add, b + pad, obs.alloc.allocs, obs.pre.len, obs.pre.cap), String::new()));
         }
         Ok(())
     }
@@ -911,7 +957,17 @@ impl<F: Fam> Ctx<F> {
             if by_ref && F::extend_ref(m, objs_ref) {
                 return;
             }
-            m.extend(objs_ref.drain(..));
+            // the source's size hint is exact, (0, Some(n)) or (0, None) in turn: all legal, and the
+            // up-front reserve of `extend` depends on it
+            // ... or wrong (an "exact" hint that is too small or too large: incorrect hints are
+            // allowed and must not lead to anything worse than a wrong reservation)
+            match n % 5 {
+                0 => m.extend(objs_ref.drain(..)),
+                1 => m.extend(objs_ref.drain(..).filter(|_| true)),
+                2 => m.extend(NoHint(objs_ref.drain(..))),
+                3 => m.extend(WrongHint(objs_ref.drain(..), n.saturating_sub(2))),
+                _ => m.extend(WrongHint(objs_ref.drain(..), n + 3)),
+            }
         })?;
         drop(objs);
         Self::apply_items(&mut self.slots[s].model, &desc);
@@ -935,7 +991,9 @@ impl<F: Fam> Ctx<F> {
                 fail!(self, [C01], "from-iter-panicked", "from_iter panicked: {} at {}", msg, norm_loc(&loc));
             }
         };
-        self.replace_map(s, newmap, VH::default(), a.allocs as i64 - a.deallocs as i64)?;
+        // a collected map hashes with its own `S::default()` instance
+        let vh = *newmap.hasher();
+        self.replace_map(s, newmap, vh, a.allocs as i64 - a.deallocs as i64)?;
         Self::apply_items(&mut self.slots[s].model, &desc);
         self.after_op(s, &[C01], true)
     }
@@ -1160,4 +1218,59 @@ pub fn parse_debug_map(txt: &str) -> Vec<(u32, u32)> {
         .filter_map(|t| t.parse().ok())
         .collect();
     nums.chunks(2).filter(|c| c.len() == 2).map(|c| (c[0], c[1])).collect()
+}
+
+/// the five lookups, through `&K` or through a borrowed form `&Q`
+fn lookup_with<F: Fam, Q>(m: &mut Map<F>, q: &Q, which: u8, w: Option<u32>, kk: u32) -> Result<Seen, bool>
+where
+    F::K: std::borrow::Borrow<Q>,
+    Q: std::hash::Hash + Eq + ?Sized,
+{
+    match which {
+        0 => Ok(m.get(q).map(|v| (kk, 0, v.v(), v.id()))),
+        1 => Ok(m.get_mut(q).map(|v| {
+            let r = (kk, 0, v.v(), v.id());
+            if let Some(w) = w {
+                v.set(w);
+            }
+            r
+        })),
+        2 => Ok(m.get_key_value(q).map(|(k, v)| {
+            k.check("get_key_value");
+            (k.k(), k.id(), v.v(), v.id())
+        })),
+        3 => Ok(m.get_key_value_mut(q).map(|(k, v)| {
+            k.check("get_key_value_mut");
+            let r = (k.k(), k.id(), v.v(), v.id());
+            if let Some(w) = w {
+                v.set(w);
+            }
+            r
+        })),
+        _ => Err(m.contains_key(q)),
+    }
+}
+
+/// an iterator adaptor that claims an exact length it does not have
+pub struct WrongHint<I>(pub I, pub usize);
+impl<I: Iterator> Iterator for WrongHint<I> {
+    type Item = I::Item;
+    fn next(&mut self) -> Option<I::Item> {
+        self.0.next()
+    }
+    fn size_hint(&self) -> (usize, Option<usize>) {
+        (self.1, Some(self.1))
+    }
+}
+
+/// an iterator adaptor that reports the least informative legal size hint
+pub struct NoHint<I>(pub I);
+impl<I: Iterator> Iterator for NoHint<I> {
+    type Item = I::Item;
+    fn next(&mut self) -> Option<I::Item> {
+        self.0.next()
+    }
+    fn size_hint(&self) -> (usize, Option<usize>) {
+        (0, None)
+    }
 }
